@@ -1090,6 +1090,11 @@ func (ev *Eval) callExpr(x *ast.CallExpr) *Val {
 		}
 	case "ref":
 		return vInt(objectID(arg(0)), nil)
+	case "allocated":
+		// allocated(x): the object x refers to exists in this state (its id is
+		// below the allocation watermark); an invariant that states it at a loop
+		// head keeps x distinct from everything allocated later
+		return vBool(cmp("<", objectID(arg(0)), ev.st.wm))
 	case "has":
 		m, k := arg(0), arg(1)
 		if mt, ok := m.Ty.Underlying().(*types.Map); ok && m.K == KMap {
@@ -1793,7 +1798,7 @@ func (ev *Eval) identKnown(name string) bool {
 
 func isContractBuiltin(name string) bool {
 	switch name {
-	case "forall", "exists", "implies", "old", "pre", "len", "cap", "min", "max", "abs", "ite", "hint", "atentry", "oldhas", "oldat", "fresh", "isnil", "be16", "be32", "ref", "off", "has", "seen", "nseen", "is", "pow2", "typeis", "int", "bool", "string":
+	case "forall", "exists", "implies", "old", "pre", "len", "cap", "min", "max", "abs", "ite", "hint", "atentry", "oldhas", "oldat", "allocated", "fresh", "isnil", "be16", "be32", "ref", "off", "has", "seen", "nseen", "is", "pow2", "typeis", "int", "bool", "string":
 		return true
 	}
 	return false
